@@ -816,6 +816,72 @@ def sample_walk(view, env, start=0):
 _VALUE_COMBINATOR = re.compile(r"^std::(bool::then|option::Option::(map|and_then|map_or|map_or_else)|result::Result::(map|and_then))$")
 
 
+def _loop_accumulation_shape(view, os_, depth):
+    """`let mut total = init; for x in xs.iter() { total = total.checked_add(f(x))?; }` over a fixed-size array: the value
+    after the loop is ("add", (init, f(xs[0]), .., f(xs[n-1]))). Recognised by provenance: the value is either the initial
+    one or the result of ONE add/mul call in this function that takes the value itself as an operand."""
+    def is_op(o):
+        c = call_of(view, o) if (o.kind == "call" and not o.proj) else None
+        if c is None:
+            return False
+        sh = re.sub(r"^.*::", "", mname(c[1]).rstrip(">"))
+        return any(rx.match(sh) and canon in ("add", "mul") for rx, canon in _OPS)
+    calls = [o for o in os_ if is_op(o)]
+    inits = [o for o in os_ if o not in calls and o.kind != "err"]
+    if len(calls) != 1 or not inits:
+        return None
+    cb, ct = call_of(view, calls[0])
+    short = re.sub(r"^.*::", "", mname(ct).rstrip(">"))
+    op = None
+    for rx, canon in _OPS:
+        if rx.match(short):
+            op = canon
+    if op not in ("add", "mul") or len(ct["args"]) != 2:
+        return None
+    a_os = [view.origins_of_operand(a, at=view.at_term(cb)) for a in ct["args"]]
+    carried = [i for i, x in enumerate(a_os) if calls[0] in x]
+    if len(carried) != 1:
+        return None
+    elem_arg = ct["args"][1 - carried[0]]
+    # the element: what the loop's next() yields, over a fixed-size array
+    with view.opaque(r"Iterator>::next$"):
+        eos = view.origins_of_operand(elem_arg, at=view.at_term(cb))
+    nexts = [call_of(view, o) for o in eos if o.kind == "call" and o.a.endswith("Iterator>::next")]
+    if len(nexts) != 1 or len(eos) != 1:
+        return None
+    eproj = tuple(next(iter(eos)).proj)
+    nb_, nt_ = nexts[0]
+    cur = (nt_["args"][0], view.at_term(nb_))
+    n = None
+    recv = ib = None
+    for _ in range(3):      # `into_iter(iter(&array))`: down to the array itself
+        with view.opaque(r"std::slice::iter$|IntoIterator>::into_iter$"):
+            its = view.origins_of_operand(cur[0], at=cur[1])
+        ics = [call_of(view, o) for o in its]
+        if len(ics) != 1 or ics[0] is None:
+            return None
+        ib, it_ = ics[0]
+        recv = it_["args"][0]
+        if recv["k"] in ("copy", "move"):
+            for l in [recv["pl"]["l"]] + sorted(view.alias_roots(recv["pl"]["l"])):
+                m = re.search(r"\[.*; (\d+)\]", str(view.local_ty(l)))
+                if m:
+                    n = int(m.group(1))
+                    break
+        if n is not None:
+            break
+        cur = (recv, view.at_term(ib))
+    if n is None or n > 8:
+        return None
+    elems = tuple(expr_shape(view, recv, view.at_term(ib), depth - 1, proj=("[%d]" % k,) + eproj) for k in range(n))
+    init_shapes = sorted({subst_ for subst_ in (repr(o) for o in inits)})
+    init = init_shapes[0] if len(init_shapes) == 1 else ("phi",) + tuple(init_shapes)
+    c0 = call_of(view, inits[0]) if inits[0].kind == "call" else None
+    if c0 is not None and len(inits) == 1:
+        init = (re.sub(r"^.*::", "", mname(c0[1]).rstrip(">")), ())
+    return (op, (init,) + elems)
+
+
 _FOLD_RE = re.compile(r"as std::iter::Iterator>::(fold|try_fold)$")
 
 
@@ -932,6 +998,10 @@ def expr_shape(view, operand, at, depth=8, _seen=None, subst=None, proj=()):
     a non-transparent call or primitive operation, "param(i).f" / "const" / "load(..)" for leaves. Several reaching
     definitions give ("phi", shapes..). Transparent calls (clone, into, `?`, unwrap, ...) do not appear."""
     os_ = view.origins_of_operand(operand, at=at, proj=proj)
+    if subst is None and not proj and depth > 1 and len(os_) >= 2:
+        acc = _loop_accumulation_shape(view, os_, depth)
+        if acc is not None:
+            return acc
     shapes = []
     for o in sorted(os_, key=repr):
         if o.kind == "err":
